@@ -123,6 +123,8 @@ def ensure_facts(tier="quick", config="default", verbose=False):
             cmd += ["-p", "brush-shell"]
         elif config == "workspace":
             cmd += ["--workspace", "--exclude", "brush-fuzz"]
+        elif config == "allfeatures":
+            cmd += ["-p", "brush-shell", "--all-features"]
         elif config.startswith("features:"):
             cmd += ["-p", "brush-shell", "--features", config.split(":", 1)[1]]
         else:
